@@ -2,6 +2,7 @@ package gq
 
 import (
 	"fmt"
+	"reflect"
 	"sort"
 	"strconv"
 	"strings"
@@ -420,8 +421,13 @@ func (w *World) toGo(v Value, depth int) interface{} {
 	case "list":
 		mode := w.ListMode
 		if mode == ListTyped {
-			// a typed slice is possible only for homogeneous non-null leaves
+			// a typed slice is possible only for homogeneous non-null leaves ...
 			if ts := typedSlice(v.L); ts != nil {
+				return ts
+			}
+			// ... or for nodes realised by one Go type (null members become nil pointers): []*T,
+			// which ggql walks by reflection.  Not behind an AnyResolver, which would have to walk it itself.
+			if ts := w.typedNodeSlice(v.L, depth); ts != nil {
 				return ts
 			}
 			mode = ListIfaceSlice
@@ -439,6 +445,38 @@ func (w *World) toGo(v Value, depth int) interface{} {
 		return out
 	}
 	return nil
+}
+
+func (w *World) typedNodeSlice(l []Value, depth int) interface{} {
+	if w.Strategy == Any || (w.Strategy == Mixed && w.Mix.Any) || len(l) == 0 {
+		return nil
+	}
+	var et reflect.Type
+	elems := make([]interface{}, len(l))
+	for i, e := range l {
+		switch e.K {
+		case "null":
+		case "node":
+			elems[i] = w.toGo(e, depth+1)
+			t := reflect.TypeOf(elems[i])
+			if et != nil && et != t {
+				return nil
+			}
+			et = t
+		default:
+			return nil
+		}
+	}
+	if et == nil || et.Kind() != reflect.Ptr {
+		return nil
+	}
+	s := reflect.MakeSlice(reflect.SliceOf(et), len(l), len(l))
+	for i, e := range elems {
+		if e != nil {
+			s.Index(i).Set(reflect.ValueOf(e))
+		}
+	}
+	return s.Interface()
 }
 
 func typedSlice(l []Value) interface{} {
